@@ -177,6 +177,8 @@ _rep("C02", "text", "Kernel-level part only: for each signature", "(b) Byte-orde
 _rep("C02", "text", "memory-safety checks and dbus assertions on.", "memory-safety checks and dbus assertions on. (c) Construction: for 18 value-tree shapes (basic values, strings, structs, arrays incl. empty ones, "
      "dict entries, variants) in both byte orders, with every value symbolic, what the real DBusTypeWriter (the machinery behind dbus_message_iter_append_* / open_container / close_container) produces "
      "equals an independent encoder's output byte for byte, records exactly the signature written, is accepted by the real validator and reads back unchanged through the real DBusTypeReader.")
+CLAIMS["C02"]["text"] += (" (d) Long headers: with the position the real reader reports for each header field value shifted by a symbolic multiple of 8 up to the 2^27-byte message "
+     "size limit, the real field-position cache returns exactly that position for every present field and 'absent' for every other (4 layouts).")
 CLAIMS["C02"]["note"] = ("Found and fixed F7 (CVE-2022-42012). NOT covered: the dbus_message_* wrappers around the writer (argument checks, locking), header creation (header edits are C12), "
      "dbus_message_copy. The validator step of (c) is skipped for arrays of variable-size elements (no verdict). DBusString storage in (c) comes from fixed pool buffers (R19).")
 _rep("C03", "note", "The byte-level effect of the header edits is C12's subject and is not covered.", "The byte-level effect of the three sanitising edits is checked by re-running the C12 header-edit jobs "
